@@ -94,7 +94,7 @@ func check(ctx *pbt.Ctx, c Case) error {
 				sawErrIdx = true
 				errCalls.Add(1)
 				if !errors.Is(perr, bt.ErrInputNoExist) {
-					return fmt.Errorf("CalcInputPreimage(idx=%d of %d inputs, type=0x%02x) = (%x, %v), want ErrInputNoExist", idx, n, ht, pre, perr)
+					return fmt.Errorf("CalcInputPreimage(idx=%d of %d inputs, type=0x%02x) = (%s, %v), want ErrInputNoExist", idx, n, ht, clip(pre), perr)
 				}
 				if !errors.Is(herr, bt.ErrInputNoExist) {
 					return fmt.Errorf("CalcInputSignatureHash(idx=%d of %d inputs, type=0x%02x) = (%x, %v), want ErrInputNoExist", idx, n, ht, sh, herr)
@@ -112,7 +112,7 @@ func check(ctx *pbt.Ctx, c Case) error {
 					sawErrScript = true
 				}
 				if !ok(perr) {
-					return fmt.Errorf("CalcInputPreimage(idx=%d, type=0x%02x) = (%x, %v) for an input with missing txid=%v / missing previous script=%v; want the matching sentinel error", idx, ht, pre, perr, noID, noScript)
+					return fmt.Errorf("CalcInputPreimage(idx=%d, type=0x%02x) = (%s, %v) for an input with missing txid=%v / missing previous script=%v; want the matching sentinel error", idx, ht, clip(pre), perr, noID, noScript)
 				}
 				if !ok(herr) {
 					return fmt.Errorf("CalcInputSignatureHash(idx=%d, type=0x%02x) = (%x, %v) for an input with missing txid=%v / missing previous script=%v; want the matching sentinel error", idx, ht, sh, herr, noID, noScript)
@@ -184,8 +184,8 @@ func countClass(n int) string {
 
 // clip renders at most the first 600 bytes of b as hex.
 func clip(b []byte) string {
-	if len(b) > 600 {
-		return fmt.Sprintf("%x..(%d bytes)", b[:600], len(b))
+	if len(b) > 300 {
+		return fmt.Sprintf("%x..(%d bytes)", b[:300], len(b))
 	}
 	return fmt.Sprintf("%x", b)
 }
